@@ -97,7 +97,7 @@ TOLERATED = [
      "fmt::Write on a String cannot fail", None),
     (r"^<txtpp::core::execute::Txtpp as std::ops::Drop>::drop$", r"^std::sync::mpsc::Receiver::<T>::try_recv$",
      "results still in flight after an error has already been returned are drained and ignored", _g_after_join),
-    (r"^txtpp::core::execute::pp::Pp::<'a>::execute_directive$", r"^txtpp::core::execute::pp::Pp::<'a>::(execute_in_clean_mode|execute_directive_temp)$",
+    (r"^txtpp::core::execute::pp::Pp::<'a>::", r"^txtpp::core::execute::pp::Pp::<'a>::(execute_in_clean_mode|execute_directive_temp)$",
      "clean tolerates directive errors (README: clean succeeds on erroneous sources)", _g_clean_mode),
     (r"^txtpp::fs::io_context::IOCtx::write_temp_file$", r"^txtpp::fs::path::abs_path::AbsPath::try_resolve$",
      "clean: a temp target that does not exist is simply not removed", _g_clean_mode),
